@@ -586,6 +586,12 @@ struct Wf<'a> {
     scalars_only: bool,
     /// the writer's mixed mode is on: between `start_mixed_mode` and the next `write_end`
     mixed_window: bool,
+    /// known finding `operator-under-stale-mixed-mode`: an operator call for a field of an object nested in
+    /// the array part while the mixed mode of the enclosing array is still on
+    shape_stale_operator: bool,
+    /// known finding `mixed-mode-lost-after-container`: a `key operator value` group in the array part behind
+    /// a nested container (whose `write_end` cleared the one mixed-mode flag)
+    shape_mode_lost: bool,
 }
 
 #[derive(Clone, Copy, PartialEq)]
@@ -621,7 +627,7 @@ impl<'a> Wf<'a> {
                 op = *o; explicit = true;
                 // known finding (C14 `roundtrip-mixed-nested-operator`): with the mixed mode of an enclosing array still
                 // on, `write_operator` takes the mixed branch
-                if self.mixed_window { return self.fail("operator-under-stale-mixed-mode(known)"); }
+                if self.mixed_window { self.shape_stale_operator = true; }
                 self.take(After::None);
             }
             if need_explicit_first_op && !explicit { return self.fail("unknown-container-first-key-without-operator"); }
@@ -711,7 +717,7 @@ impl<'a> Wf<'a> {
                                 // C15_parse_back_full)
                                 if o == Op::Exists { return self.fail("mixed-exists-operator(reported)"); }
                                 if first_pair && n == 1 && !*q && b.as_slice() == b"?" { return self.fail("mixed-bare-question-key(reported)"); }
-                                if !self.mixed_window { return self.fail("mixed-operator-after-container(reported)"); }
+                                if !self.mixed_window { self.shape_mode_lost = true; }
                                 if first_pair { self.push_tok("M".to_string()); first_pair = false; }
                                 self.push_scalar(b, *q, src)?;
                                 self.take(After::Elem);
@@ -765,15 +771,15 @@ impl<'a> Wf<'a> {
     }
 }
 
-struct WfResult { tape: String, src: Vec<Src>, rows: Vec<ObsRow> }
+struct WfResult { tape: String, src: Vec<Src>, rows: Vec<ObsRow>, shape_stale_operator: bool, shape_mode_lost: bool }
 
 fn well_formed(calls: &[Call]) -> Result<WfResult, &'static str> {
     let norm: Vec<Norm> = calls.iter().map(normalize).collect();
-    let mut p = Wf { calls: &norm, pos: 0, toks: vec![], src: vec![], rows: vec![], depth: 0, why: "", scalars_only: true, mixed_window: false };
+    let mut p = Wf { calls: &norm, pos: 0, toks: vec![], src: vec![], rows: vec![], depth: 0, why: "", scalars_only: true, mixed_window: false, shape_stale_operator: false, shape_mode_lost: false };
     let ok = p.fields(false, After::None, false).is_some();
     if !ok { return Err(p.why); }
     if p.pos != norm.len() { return Err(if p.why.is_empty() { "key-expected" } else { p.why }); }
-    Ok(WfResult { tape: if p.toks.is_empty() { "-".to_string() } else { p.toks.join(",") }, src: p.src, rows: p.rows })
+    Ok(WfResult { tape: if p.toks.is_empty() { "-".to_string() } else { p.toks.join(",") }, src: p.src, rows: p.rows, shape_stale_operator: p.shape_stale_operator, shape_mode_lost: p.shape_mode_lost })
 }
 
 fn f64_ulps(a: f64, b: f64) -> u64 {
@@ -800,6 +806,19 @@ fn ref_trim_ascii_end(b: &[u8]) -> &[u8] {
     let mut e = b.len();
     while e > 0 && matches!(b[e - 1], b' ' | b'\t' | b'\n' | 0x0c | b'\r') { e -= 1; }
     &b[..e]
+}
+
+/// The runner keeps at most 200 violations per run: list only the first witnesses of a known finding (all are counted).
+static KNOWN_LISTED: [std::sync::atomic::AtomicUsize; 2] = [std::sync::atomic::AtomicUsize::new(0), std::sync::atomic::AtomicUsize::new(0)];
+fn report_known(obs: &mut Obs, kind: &str, known: bool, case: &str, detail: &str) {
+    if known {
+        let slot = if kind == "operator-under-stale-mixed-mode" { 0 } else { 1 };
+        if KNOWN_LISTED[slot].fetch_add(1, std::sync::atomic::Ordering::Relaxed) >= 40 {
+            obs.count(&format!("known-finding-not-listed-again:{}", kind));
+            return;
+        }
+    }
+    obs.violation(kind, case, detail);
 }
 
 fn oracle_wcalls(ic: u8, fac: u8, calls: &[Call], r: &RunResult, case: &str, obs: &mut Obs) {
@@ -841,21 +860,30 @@ fn oracle_wcalls(ic: u8, fac: u8, calls: &[Call], r: &RunResult, case: &str, obs
         Err(why) => { obs.count(&format!("not-wf:{}", why)); return; }
     };
     obs.count("wf");
-    for (i, row) in wf.rows.iter().enumerate() {
-        if r.rows[i] != Ok(*row) {
-            obs.violation("wf-state", case, &format!("after call {} impl {:?} document says {:?}", i, r.rows[i], row));
-            return;
+    // the two known findings of the single `mixed_mode` flag, classified from the call list alone; a divergence of
+    // such a list is reported under the finding's kind, everything else keeps the general kinds
+    let known_kind: Option<&'static str> =
+        if wf.shape_stale_operator { Some("operator-under-stale-mixed-mode") } else if wf.shape_mode_lost { Some("mixed-mode-lost-after-container") } else { None };
+    if wf.shape_stale_operator { obs.count("shape:operator-under-stale-mixed-mode"); }
+    if wf.shape_mode_lost { obs.count("shape:mixed-mode-lost-after-container"); }
+    if known_kind.is_none() {
+        for (i, row) in wf.rows.iter().enumerate() {
+            if r.rows[i] != Ok(*row) {
+                obs.violation("wf-state", case, &format!("after call {} impl {:?} document says {:?}", i, r.rows[i], row));
+                return;
+            }
         }
     }
     let tape = match TextTape::from_slice(&r.out) {
         Ok(t) => t,
-        Err(e) => { obs.violation("wf-output-does-not-parse", case, &format!("{} {:?}", hex(&r.out), e)); return; }
+        Err(e) => { report_known(obs, known_kind.unwrap_or("wf-output-does-not-parse"), known_kind.is_some(), case, &format!("{} {:?}", hex(&r.out), e)); return; }
     };
     let got = show::text_tape(tape.tokens());
     if got != wf.tape {
-        obs.violation("wf-parse-back", case, &format!("output {} parsed {} described {}", hex(&r.out), got, wf.tape));
+        report_known(obs, known_kind.unwrap_or("wf-parse-back"), known_kind.is_some(), case, &format!("output {} parsed {} described {}", hex(&r.out), got, wf.tape));
         return;
     }
+    if known_kind.is_some() { obs.count("known-shape-but-parses-back"); }
     // (c) value read-back
     for (t, src) in tape.tokens().iter().zip(wf.src.iter()) {
         match (t, src) {
@@ -1261,20 +1289,27 @@ pub fn gen_c15(g: &mut Gen) {
     }
     // a small container written through its own calls: array of scalars, object with implicit `=` (sometimes an
     // explicit operator: under a stale mixed mode that is the known finding), nested once more, or a nested mixed array
-    fn mcontainer(rng: &mut Rng, depth: usize, out: &mut Vec<Call>) {
+    fn mcontainer(rng: &mut Rng, depth: usize, explicit_ops: bool, out: &mut Vec<Call>) {
         match rng.below(if depth < 2 { 5 } else { 2 }) {
             0 => { out.push(Call::ArrayStart); for _ in 0..1 + rng.below(3) { let c = mscalar(rng); out.push(c); } out.push(Call::End); }
             1 => {
                 out.push(Call::ObjectStart);
                 for _ in 0..1 + rng.below(2) {
                     out.push(Call::Unquoted(rng.pick(&[&b"k"[..], b"x1", b"id"]).to_vec()));
-                    if rng.chance(1, 8) { out.push(Call::Operator(*rng.pick(&[Op::Eq, Op::Lt, Op::Ge]))); }
+                    if explicit_ops && rng.chance(1, 2) { out.push(Call::Operator(*rng.pick(&[Op::Eq, Op::Lt, Op::Ge]))); }
                     let c = mscalar(rng); out.push(c);
                 }
                 out.push(Call::End);
             }
-            2 => { out.push(Call::ObjectStart); out.push(Call::Unquoted(b"n".to_vec())); mcontainer(rng, depth + 1, out); out.push(Call::End); }
-            3 => { out.push(Call::ArrayStart); mcontainer(rng, depth + 1, out); let c = mscalar(rng); out.push(c); out.push(Call::End); }
+            2 => { out.push(Call::ObjectStart); out.push(Call::Unquoted(b"n".to_vec())); mcontainer(rng, depth + 1, explicit_ops, out); out.push(Call::End); }
+            3 => {
+                // one in three starts with the nested container: in the array part that is the parser quirk
+                // `mixed-container-not-scalar-led` (counted, not well-formed for the oracle)
+                out.push(Call::ArrayStart);
+                if rng.chance(1, 3) { mcontainer(rng, depth + 1, explicit_ops, out); let c = mscalar(rng); out.push(c); }
+                else { let c = mscalar(rng); out.push(c); mcontainer(rng, depth + 1, explicit_ops, out); }
+                out.push(Call::End);
+            }
             _ => {
                 out.push(Call::ArrayStart); let c = mscalar(rng); out.push(c); out.push(Call::Mixed);
                 out.push(Call::Unquoted(b"m".to_vec())); out.push(Call::Operator(*rng.pick(&[Op::Eq, Op::Gt]))); let c = mscalar(rng); out.push(c);
@@ -1285,6 +1320,11 @@ pub fn gen_c15(g: &mut Gen) {
     let n = g.budget(4_000, 60_000);
     for i in 0..n {
         let with_containers = i % 2 == 1;
+        // the two known findings of the single mixed-mode flag get their own lists (one list in 20 each); every other
+        // list stays clear of both shapes: no operator call inside a container nested in the array part, no
+        // `key operator value` group behind such a container
+        let stale_ops = i % 20 == 7;
+        let groups_after_container = i % 20 == 17;
         let mut calls = vec![];
         let wrap = g.rng.below(4);
         for _ in 0..wrap { calls.push(Call::Unquoted(b"n".to_vec())); calls.push(Call::ObjectStart); }
@@ -1292,20 +1332,26 @@ pub fn gen_c15(g: &mut Gen) {
         calls.push(Call::Unquoted(b"data".to_vec()));
         calls.push(if g.rng.chance(1, 4) { Call::Binary(BinT::Array(0)) } else { Call::ArrayStart });
         for _ in 0..1 + g.rng.below(3) {
-            if with_containers && g.rng.chance(1, 4) { mcontainer(&mut g.rng, 0, &mut calls); } else { let c = mscalar(&mut g.rng); calls.push(c); }
+            if with_containers && g.rng.chance(1, 4) { mcontainer(&mut g.rng, 0, true, &mut calls); } else { let c = mscalar(&mut g.rng); calls.push(c); }
         }
         calls.push(if g.rng.chance(1, 4) { Call::Binary(BinT::Mixed) } else { Call::Mixed });
-        let groups = g.rng.below(5);
+        let groups = g.rng.below(5) + if stale_ops || groups_after_container { 2 } else { 0 };
+        let mut seen_container = false;
         for i in 0..groups {
             // a bare element, a container element, or a `key operator value` group
             if with_containers && g.rng.chance(1, 6) { let c = mscalar(&mut g.rng); calls.push(c); continue; }
-            if with_containers && g.rng.chance(1, 6) { mcontainer(&mut g.rng, 0, &mut calls); continue; }
+            if with_containers && g.rng.chance(1, 6) || (i == 0 && (stale_ops || groups_after_container)) {
+                // the first container of the array part is where the mixed mode is still on
+                mcontainer(&mut g.rng, 0, stale_ops && !seen_container, &mut calls); seen_container = true; continue;
+            }
+            if seen_container && !groups_after_container { let c = mscalar(&mut g.rng); calls.push(c); continue; }
             let key = if i == 0 && g.rng.chance(1, 40) { Call::Unquoted(b"?".to_vec()) } else { mscalar(&mut g.rng) };
             calls.push(key);
             let op = if g.rng.chance(1, 25) { Op::Exists } else { *g.rng.pick(&[Op::Eq, Op::Eq, Op::Lt, Op::Le, Op::Gt, Op::Ge, Op::Ne, Op::Exact]) };
             calls.push(if op == Op::Eq && g.rng.chance(1, 4) { Call::Binary(BinT::Equal) } else { Call::Operator(op) });
-            if with_containers && g.rng.chance(1, 4) { mcontainer(&mut g.rng, 0, &mut calls); } else { let c = mscalar(&mut g.rng); calls.push(c); }
+            if with_containers && !seen_container && g.rng.chance(1, 4) { mcontainer(&mut g.rng, 0, stale_ops, &mut calls); seen_container = true; } else { let c = mscalar(&mut g.rng); calls.push(c); }
         }
+        if groups_after_container { let c = mscalar(&mut g.rng); calls.push(c); let c = mscalar(&mut g.rng); calls.push(c); }
         calls.push(Call::End);
         if g.rng.chance(1, 2) { calls.push(Call::Unquoted(b"z".to_vec())); calls.push(Call::I32(1)); }
         for _ in 0..wrap { calls.push(Call::End); }
